@@ -3,10 +3,11 @@
 cd /verif
 for d in seeded/*/; do
   n=$(basename $d); [ -f $d/patch.diff ] || continue
-  if git -C /repo apply --check $d/patch.diff 2>/dev/null; then continue; fi
+  P=$(readlink -f $d/patch.diff)
+  if git -C /repo apply --check $P 2>/dev/null; then continue; fi
   WT=/var/tmp/vfreb-$$
   git -C /repo worktree add --detach -q $WT HEAD
-  if git -C $WT apply --3way $d/patch.diff 2>/dev/null && [ -z "$(git -C $WT diff --name-only --diff-filter=U)" ]; then
+  if git -C $WT apply --3way $P 2>/dev/null && [ -z "$(git -C $WT diff --name-only --diff-filter=U)" ]; then
     cp $d/patch.diff $d/patch.orig.diff
     git -C $WT diff HEAD > $d/patch.diff
     echo "rebased $n"
